@@ -283,8 +283,14 @@ def loads(s):
     with our decoding version.
     """
     um = xmarshal._FastUnmarshaller(s)
+    # The dispatch table is shared by all unmarshallers (and is what
+    # xdis.marsh.loads() uses): put the regular code loader back when done.
+    regular_load_code = um.dispatch[xmarshal.TYPE_CODE]
     um.dispatch[xmarshal.TYPE_CODE] = load_code
-    return um.load()
+    try:
+        return um.load()
+    finally:
+        um.dispatch[xmarshal.TYPE_CODE] = regular_load_code
 
 
 def fix_dropbox_pyc(fp, fixed_pyc="/tmp/test.pyc"):
